@@ -249,7 +249,13 @@ def parse_rvalue(s: str) -> Rvalue:
     # aggregate: Path::<..>::Variant(args) | Path { f: op, .. } | Path::Variant (unit) | {closure@..}
     if s.startswith('{closure@') or s.startswith('{coroutine@'):
         end = match_close(s, 0)
-        return Rvalue('closure', (s[:end + 1], ()), s)
+        rest = s[end + 1:].strip()
+        fields = []
+        if rest.startswith('{') and rest.endswith('}'):
+            for item in split_top(rest[1:-1]):
+                k, v = item.split(':', 1)
+                fields.append((k.strip(), parse_operand(v)))
+        return Rvalue('closure', (s[:end + 1], tuple(fields)), s)
     if s.endswith(')'):
         # find the '(' matching the final ')'
         depth = 0
